@@ -385,6 +385,8 @@ class Evaluator:
                 return a - b
             if isinstance(op, ast.Mult):
                 return a * b
+            if isinstance(op, ast.Div) and b != 0:
+                return Fraction(a) / Fraction(b)
         if isinstance(op, ast.Mult) and isinstance(a, list) and isinstance(b, int):
             return a * b
         if isinstance(op, ast.Add) and isinstance(a, (list, tuple)) and type(a) is type(b):
@@ -447,6 +449,19 @@ class Evaluator:
         q = self.prog.qualify(self.f.module, d) if d else None
         if q in ("numpy.asarray", "numpy.array", "numpy.atleast_1d") and len(args) == 1 and isinstance(args[0], (list, tuple)) and all(isinstance(x, (int, Fraction, bool)) for x in args[0]):
             return Vec(args[0])
+        if q == "numpy.arange" and 1 <= len(args) <= 3 and all(isinstance(x, (int, Fraction)) and not isinstance(x, bool) for x in args):
+            if len(args) == 1:
+                start, stop, step = Fraction(0), Fraction(args[0]), Fraction(1)
+            else:
+                start, stop = Fraction(args[0]), Fraction(args[1])
+                step = Fraction(args[2]) if len(args) == 3 else Fraction(1)
+            if step == 0:
+                raise _Raise("ZeroDivisionError", (), (), e)
+            import math
+            nlen = max(0, math.ceil((stop - start) / step))
+            if nlen > 4096:
+                raise Licence(f"{self.f.loc(e)}: arange of {nlen} points is outside the bounded evaluation")
+            return Vec([start + k * step for k in range(nlen)])
         if q in ("numpy.flatnonzero",) and len(args) == 1 and isinstance(args[0], Vec):
             return Vec([i for i, x in enumerate(args[0]) if x])
         if q in ("numpy.nonzero", "numpy.where") and len(args) == 1 and isinstance(args[0], Vec):
